@@ -281,7 +281,18 @@ fn ill_typed_stmt(d: &mut Dec, p: &GProg) -> (&'static str, String) {
         let arms = if first { format!("{} => 1, _ => 2", PATS[pi].1) } else { format!("_ if_never => 0, {} => 1", PATS[pi].1).replace("_ if_never => 0, ", "q0 => 0, ") };
         return ("mismatch:pattern", format!("let _ = match {} {{ {arms} }};", SCRUT[si].1));
     }
-    let n_ctx = 6;
+    // (trait, method, literal receiver) with literal-only parameters, implemented for a primitive type
+    let mut methods: Vec<(usize, usize, String)> = vec![];
+    for im in &p.impls {
+        if let (Some(tr), Some(recv)) = (im.trait_, lit_of(&im.for_ty)) {
+            for (mi, sig) in p.traits[tr].methods.iter().enumerate() {
+                if sig.params.iter().all(|t| lit_of(t).is_some()) {
+                    methods.push((tr, mi, recv.clone()));
+                }
+            }
+        }
+    }
+    let n_ctx = if methods.is_empty() { 6 } else { 10 };
     let k = d.below(closed.len() + n_ctx);
     if k < closed.len() {
         return (closed[k].0, closed[k].1.to_string());
@@ -338,6 +349,44 @@ fn ill_typed_stmt(d: &mut Dec, p: &GProg) -> (&'static str, String) {
             let n = ps.len() + 1 + d.below(2);
             let args: Vec<String> = (0..n).map(|_| "1".to_string()).collect();
             ("variant-arity", format!("let _ = {}::{}({});", a.name, vn, args.join(", ")))
+        }
+        6..=9 if !methods.is_empty() => {
+            // trait method calls: through the impl for a primitive type (static) or a trait object
+            let (tr, m, recv) = methods[d.below(methods.len())].clone();
+            let sig = &p.traits[tr].methods[m];
+            let tn = &p.traits[tr].name;
+            let good: Vec<String> = sig.params.iter().map(|t| lit_of(t).unwrap()).collect();
+            match k - closed.len() {
+                6 | 7 if !sig.params.is_empty() => {
+                    let bad = d.below(sig.params.len());
+                    let args: Vec<String> =
+                        sig.params.iter().enumerate().map(|(i, t)| if i == bad { wrong_lit_for(t) } else { lit_of(t).unwrap() }).collect();
+                    if k - closed.len() == 6 {
+                        ("method-arg-type", format!("let _ = {}::{}({}, {});", tn, sig.name, recv, args.join(", ")))
+                    } else {
+                        ("dyn-method-arg-type", format!("let illd: dyn {} = {}; let _ = {}::{}(illd, {});", tn, recv, tn, sig.name, args.join(", ")))
+                    }
+                }
+                8 => {
+                    let mut args = good.clone();
+                    args.push("1".into());
+                    if d.bool() {
+                        ("method-arity", format!("let _ = {}::{}({}, {});", tn, sig.name, recv, args.join(", ")))
+                    } else {
+                        ("dyn-method-arity", format!("let illd: dyn {} = {}; let _ = {}::{}(illd, {});", tn, recv, tn, sig.name, args.join(", ")))
+                    }
+                }
+                _ => {
+                    // unit implements no trait
+                    if d.bool() {
+                        ("dyn-no-impl", format!("let illd: dyn {} = ();", tn))
+                    } else {
+                        let mut args = vec!["()".to_string()];
+                        args.extend(good);
+                        ("method-no-impl", format!("let _ = {}::{}({});", tn, sig.name, args.join(", ")))
+                    }
+                }
+            }
         }
         _ => ("proj-out-of-range", "let ill: (int32, int32) = (1, 2); let _ = ill.5;".to_string()),
     }
@@ -461,7 +510,8 @@ impl Check for C03 {
             _ => if ctx.tier == Tier::Thorough { 120 } else { 60 },
         };
         let mut cfg = GenCfg::full(nodes);
-        cfg.focus = [Focus::None, Focus::Generics, Focus::Closures, Focus::Effects, Focus::Scopes][(index % 5) as usize];
+        cfg.focus = [Focus::None, Focus::Generics, Focus::Closures, Focus::Effects, Focus::Scopes, Focus::Traits][(index % 6) as usize];
+        cfg.traits = cfg.focus == Focus::Traits || (index / 6) % 3 == 0;
         if phase == "illtyped" {
             // the injected statement is chosen with the LAST bytes so that the
             // program and the mutation shrink independently
